@@ -93,7 +93,7 @@ package deps
 //@   modifies *v, alloc, bytes
 //@   ensures imp(!isNil(err), !typeIs(err, "*res.Error"))
 //@   ensures raw: imp(typeIs(v, "*store.valueObject") && ref(ptrOf(v, "*store.valueObject").Data) != 0, len(ptrOf(v, "*store.valueObject").Data) >= 1 && ref(ptrOf(v, "*store.valueObject").Data) >= old(nextRef()))
-//@   ensures unchanged("bytes") || true
+
 
 //@ # sync.WaitGroup: ghost counter of live workers (no fairness, no progress claims)
 //@ ghostvar wgcount int
@@ -157,3 +157,33 @@ package deps
 //@   modifies alloc
 //@ trusted func errors.New(text string) (err error)
 //@   ensures !isNil(err) && !typeIs(err, "*res.Error")
+
+//@ # reader/writer locks: ghost counters of acquire/release operations (mutual exclusion itself is T4)
+//@ ghostvar rlocks int
+//@ ghostvar runlocks int
+//@ ghostvar wlocks int
+//@ ghostvar wunlocks int
+//@ trusted func (m *sync.RWMutex) RLock()
+//@   modifies ghost.rlocks
+//@   ensures rlocks == old(rlocks) + 1
+//@ trusted func (m *sync.RWMutex) RUnlock()
+//@   modifies ghost.runlocks
+//@   ensures runlocks == old(runlocks) + 1
+//@ trusted func (m *sync.RWMutex) Lock()
+//@   modifies ghost.wlocks
+//@   ensures wlocks == old(wlocks) + 1
+//@ trusted func (m *sync.RWMutex) Unlock()
+//@   modifies ghost.wunlocks
+//@   ensures wunlocks == old(wunlocks) + 1
+//@ trusted func (k *keylock.KeyLock) RLock(key string)
+//@   modifies ghost.rlocks
+//@   ensures rlocks == old(rlocks) + 1
+//@ trusted func (k *keylock.KeyLock) RUnlock(key string)
+//@   modifies ghost.runlocks
+//@   ensures runlocks == old(runlocks) + 1
+//@ trusted func (k *keylock.KeyLock) Lock(key string)
+//@   modifies ghost.wlocks
+//@   ensures wlocks == old(wlocks) + 1
+//@ trusted func (k *keylock.KeyLock) Unlock(key string)
+//@   modifies ghost.wunlocks
+//@   ensures wunlocks == old(wunlocks) + 1
